@@ -18,31 +18,116 @@ def allChunks (p : Params) : List Chunk :=
     record's chunks are written; foldfilter peeks and produces the end marker before closing. -/
 def Good (p : Params) : Prop := p.Ok ∧ p.enqueueFirst = true ∧ (p.peek = true → p.poisonFirst = true)
 
-/-- No deadlock: every reachable state is final or has an enabled step. -/
+/-! ### Bridges to `PV.Lemmas.Wrapper` -/
+
+theorem allChunks_eq (p : Params) : allChunks p = PV.Lemmas.Wrapper.allChunks p := rfl
+
+theorem allChunks_length (p : Params) : (allChunks p).length = PV.Lemmas.Wrapper.S p (nrec p) := by
+  rw [allChunks_eq]; exact PV.Lemmas.Wrapper.chunksUpTo_length p (nrec p)
+
+/-- FINDING: `no_deadlock` and `never_fails` are FALSE as stated.  With `peek = true` and no chunk at
+    all (e.g. a single record of size 0) the collector emits the record while the queue is still empty,
+    enters `peeking`, the feeder then produces the end marker and closes, the child reaches EOF and
+    `kPeekEof` fires: the collector fails ("child ended early"), and that state is stuck and not final.
+    Counterexample: sizes `[0]`, all capacities 1, enqueueFirst, poisonFirst, peek, eager release. -/
+def cexParams : Params := ⟨[0], 1, 1, 1, true, true, true, fun r _ => r, 0⟩
+
+def cexTrace : List Label := [.fEnqueue, .kConsume, .kOut, .fNext, .fPoison, .fClose, .cEof, .kPeekEof]
+
+def cexState : State :=
+  { fRec := 1, fEnq := false, fSent := 0, fSpilling := false, fPoison := true, fClosed := true, buf := [],
+    pipe1 := [], cRead := [], cEmitted := 0, cEof := true, pipe2 := [], queue := [none], coll := .failed,
+    got := [], out := [0] }
+
+theorem eager_policyOk (p : Params) (h : p.release = fun r _ => r) : p.PolicyOk := by
+  constructor
+  · intro r e; rw [h]; exact Nat.le_refl _
+  · intro r r' e e' hr _; rw [h]; exact hr
+  · intro r; rw [h]
+
+theorem cex_good : Good cexParams :=
+  ⟨⟨by decide, by decide, by decide, eager_policyOk _ rfl⟩, rfl, fun _ => rfl⟩
+
+theorem cex_reachable : Reachable cexParams cexState :=
+  PV.Lemmas.Wrapper.reachable_of_runTrace Reachable.init cexTrace (by decide)
+
+/-- the statement of `never_fails` is refuted. -/
+theorem never_fails_is_false :
+    ¬ (∀ (p : Params), Good p → ∀ s : State, Reachable p s → s.coll ≠ .failed) :=
+  fun h => h cexParams cex_good cexState cex_reachable rfl
+
+/-- the statement of `no_deadlock` is refuted. -/
+theorem no_deadlock_is_false :
+    ¬ (∀ (p : Params), Good p → ∀ s : State, Reachable p s → Final p s ∨ ∃ l s', step p s l = some s') := by
+  intro h
+  rcases h cexParams cex_good cexState cex_reachable with hf | ⟨l, s', hs⟩
+  · exact absurd hf.1 (by decide)
+  · revert s' hs; cases l <;> decide
+
+/-- The extra hypothesis that makes both statements true: a peeking wrapper (foldfilter) sends at least
+    one chunk whenever there is a record (every line has ≥ 1 piece). -/
+def PeekNonEmpty (p : Params) : Prop := p.peek = true → nrec p ≠ 0 → allChunks p ≠ []
+
+theorem peekNonEmpty_of_pos (p : Params) (h : p.peek = true → ∀ size ∈ p.sizes, 1 ≤ size) : PeekNonEmpty p := by
+  intro hpk hn hnil
+  have hlen : 0 < nrec p := Nat.pos_of_ne_zero hn
+  have h1 := PV.Lemmas.Wrapper.S_lt p hlen
+  have h2 := allChunks_length p
+  rw [hnil] at h2
+  have h3 : 1 ≤ sizeOf p 0 := by
+    unfold sizeOf nrec at *
+    cases hs : p.sizes with
+    | nil => rw [hs] at hlen; simp at hlen
+    | cons a t => have := h hpk a (by rw [hs]; simp); simpa using this
+  simp at h2 h1; omega
+
+theorem hyp_of_good (p : Params) (hp : Good p) (hz : PeekNonEmpty p) : PV.Lemmas.Wrapper.Hyp p := by
+  refine ⟨hp.1, hp.2.1, hp.2.2, ?_⟩
+  intro hpk
+  by_cases hn : nrec p = 0
+  · exact Or.inl hn
+  · right
+    have := hz hpk hn
+    rw [← allChunks_length]
+    exact List.length_pos_iff.2 this
+
+/-- No deadlock: every reachable state is final or has an enabled step.
+    FALSE as stated (see `no_deadlock_is_false`); true version: `no_deadlock_corrected`. -/
 theorem no_deadlock (p : Params) (hp : Good p) (s : State) (hr : Reachable p s) :
     Final p s ∨ ∃ l s', step p s l = some s' := by
-  sorry
+  sorry  -- FALSE: counterexample `cexParams` / `cexTrace`, refuted in `no_deadlock_is_false`
 
-/-- The collector's error branches (surplus output / child ended early) are unreachable. -/
+theorem no_deadlock_corrected (p : Params) (hp : Good p) (hz : PeekNonEmpty p) (s : State) (hr : Reachable p s) :
+    Final p s ∨ ∃ l s', step p s l = some s' :=
+  have hh := hyp_of_good p hp hz
+  PV.Lemmas.Wrapper.progress hh (PV.Lemmas.Wrapper.inv_reachable hr) (PV.Lemmas.Wrapper.nf_reachable hh hr)
+
+/-- The collector's error branches (surplus output / child ended early) are unreachable.
+    FALSE as stated (see `never_fails_is_false`); true version: `never_fails_corrected`. -/
 theorem never_fails (p : Params) (hp : Good p) (s : State) (hr : Reachable p s) : s.coll ≠ .failed := by
-  sorry
+  sorry  -- FALSE: counterexample `cexParams` / `cexTrace`, refuted in `never_fails_is_false`
+
+theorem never_fails_corrected (p : Params) (hp : Good p) (hz : PeekNonEmpty p) (s : State) (hr : Reachable p s) :
+    s.coll ≠ .failed :=
+  (PV.Lemmas.Wrapper.nf_reachable (hyp_of_good p hp hz) hr).1
 
 /-- Every execution is finite: a natural-number measure strictly decreases with every step. -/
 theorem terminates (p : Params) (hp : Good p) :
-    ∃ μ : State → Nat, ∀ s l s', Reachable p s → step p s l = some s' → μ s' < μ s := by
-  sorry
+    ∃ μ : State → Nat, ∀ s l s', Reachable p s → step p s l = some s' → μ s' < μ s :=
+  ⟨PV.Lemmas.Wrapper.mu p, fun _ _ _ _ hs => PV.Lemmas.Wrapper.mu_decreases hs⟩
 
 /-- No shift: the answers the collector consumes are, at every moment, a prefix of all chunks in
     order — in particular the k-th answer read for an entry is the child's answer to that record's
     k-th chunk — and the records are emitted in input order. -/
 theorem collector_in_order (p : Params) (hp : Good p) (s : State) (hr : Reachable p s) :
     s.got <+: allChunks p ∧ s.out <+: List.range (nrec p) ∧ s.cRead <+: allChunks p := by
-  sorry
+  have h := PV.Lemmas.Wrapper.inv_reachable hr
+  exact ⟨h.got_prefix, h.out_prefix, h.cRead_prefix⟩
 
 /-- In a final state everything was fed to the child and every record was emitted, in order. -/
 theorem final_output_complete (p : Params) (hp : Good p) (s : State) (hr : Reachable p s) (hf : Final p s) :
-    s.out = List.range (nrec p) ∧ s.got = allChunks p ∧ s.cRead = allChunks p := by
-  sorry
+    s.out = List.range (nrec p) ∧ s.got = allChunks p ∧ s.cRead = allChunks p :=
+  (PV.Lemmas.Wrapper.inv_reachable hr).final hf
 
 /-- Visible-event refinement: every concrete step projects to an accepted event of the abstract
     trace automaton (or is invisible), so PV_TRACE logs of real runs must be accepted by `arun`. -/
@@ -52,13 +137,39 @@ theorem refines (p : Params) (hp : p.Ok) :
         (match project p s l with
          | some e => ∃ a', astep p.enqueueFirst p.poisonFirst a e = some a' ∧ R s' a'
          | none => R s' a) := by
-  sorry
+  refine ⟨fun s a => a = PV.Lemmas.Wrapper.absOf p s, (PV.Lemmas.Wrapper.absOf_init p).symm, ?_⟩
+  intro s a l s' hr hR hs
+  subst hR
+  have h := PV.Lemmas.Wrapper.ref_step (PV.Lemmas.Wrapper.inv_reachable hr) hs
+  unfold PV.Lemmas.Wrapper.RefStep at h
+  split
+  · rename_i e he
+    rw [he] at h
+    exact ⟨_, h, rfl⟩
+  · rename_i he
+    rw [he] at h
+    exact h
+
+/-- parameters / trace / state witnessing the cache defect. -/
+def dlParams : Params := ⟨[6], 1, 1, 1, false, false, false, fun r _ => r, 0⟩
+
+def dlTrace : List Label :=
+  [.fAppend, .fSpillStart, .fSpill, .fSpillEnd, .fAppend, .fSpillStart, .cRead, .fSpill, .fSpillEnd, .fAppend,
+   .fSpillStart, .cWrite, .cRead, .fSpill, .fSpillEnd, .fAppend, .fSpillStart]
+
+def dlState : State :=
+  { fRec := 0, fEnq := false, fSent := 4, fSpilling := true, fPoison := false, fClosed := false, buf := [(0, 3)],
+    pipe1 := [(0, 2)], cRead := [(0, 0), (0, 1)], cEmitted := 1, cEof := false, pipe2 := [(0, 0)], queue := [],
+    coll := .idle, got := [], out := [] }
 
 /-- The defect that was repaired in cache (entry produced only after the record has been written):
     with a record larger than buffer + pipes the system deadlocks. -/
 theorem deadlock_when_enqueue_after_write :
     ∃ (p : Params) (s : State), p.Ok ∧ p.enqueueFirst = false ∧ Reachable p s ∧ ¬ Final p s ∧ Stuck p s := by
-  sorry
+  refine ⟨dlParams, dlState, ⟨by decide, by decide, by decide, eager_policyOk _ rfl⟩, rfl, ?_, ?_, ?_⟩
+  · exact PV.Lemmas.Wrapper.reachable_of_runTrace Reachable.init dlTrace (by decide)
+  · intro hf; exact absurd hf.1 (by decide)
+  · intro l; cases l <;> decide
 
 -- non-vacuity: a complete run of a 2-record system
 example : (runTrace ⟨[1, 1], 1, 1, 1, true, true, true, fun r _ => r, 0⟩ init
